@@ -74,6 +74,24 @@ def _val_isinstance(dt, t, c):
 
 VAL.isinstance_hook = _val_isinstance
 
+
+def _val_eq(dt, t, o, ctx):
+    """Python's == between a literal value and a number compares numerically across int / float / bool (0 == 0.0 == False)."""
+    if isinstance(o, bool) or not isinstance(o, (int, float)):
+        return None
+    c = z3.RealVal(repr(float(o))) if isinstance(o, float) else z3.IntVal(o)
+    as_int = isinstance(o, int) or float(o).is_integer()
+    iv = z3.IntVal(int(o)) if as_int else None
+    parts = [z3.And(dt.recognizer("VReal")(t), dt.accessor("VReal", "r")(t) == (z3.ToReal(c) if isinstance(o, int) else c))]
+    if as_int:
+        parts.append(z3.And(dt.recognizer("VInt")(t), dt.accessor("VInt", "i")(t) == iv))
+        if int(o) in (0, 1):
+            parts.append(z3.And(dt.recognizer("VBool")(t), dt.accessor("VBool", "b")(t) == z3.BoolVal(bool(int(o)))))
+    return z3.Or(*parts)
+
+
+VAL.eq_hook = _val_eq
+
 TOK, = REG.declare_datatypes([dict(name="Tok", none="NoTok", ctors=[
     ("NoTok", None, []),
     ("Token", "formulae.token.Token", [("kind", "str"), ("lexeme", "str"), ("literal", "Val")], {"literal": None})])])
